@@ -219,17 +219,41 @@ static void verify_all(CdnsBlock& b, TabModel* tm, const char* when) {
   }
 }
 
+// i-th value of a bulk fill: distinct for distinct i, no generator choices involved
+static Spec bulk_spec(int t, unsigned i) {
+  Spec p;
+  switch (t) {
+    case T_IP: case T_NRD: p.s = "bulk-" + std::to_string(i); break;
+    case T_CT: case T_QRR: p.v = {(int64_t)(i & 0xFFFF), (int64_t)(i >> 16)}; break;
+    default: p.v = {-1, -1, -1, 1}; p.s = "bulk-" + std::to_string(i); break;
+  }
+  return p;
+}
 static void c11_tables(Case& cs) {
   Chooser& c = cs.c;
   BlockParameters bp;
   CdnsBlock blk(bp, 0);
   TabModel tm[T_N];
   unsigned nops = (unsigned)c.range(1, 10 + cs.size * 10);
-  uint64_t hits = 0, distinct = 0, clears = 0, rollbacks = 0;
+  uint64_t hits = 0, distinct = 0, clears = 0, rollbacks = 0; bool bulk = false;
   std::unique_ptr<CdnsBlock> snap; TabModel snap_tm[T_N];
   std::pair<int, Spec> last_added; bool have_last = false, force_last = false;
   std::vector<std::pair<int, Spec>> recent;
   std::ostringstream tr;
+  // now and then a table grows far beyond the usual sizes first (tens of thousands of entries: rehashing, block-sized deques,
+  // whatever a table does differently when it is big), as the tables of a block of 10000 records with several RRs each do
+  if (c.range(0, 159) == 0) {
+    int t = (int)c.pick<int>({T_IP, T_NRD, T_NRD, T_CT, T_QRR, T_MMD});
+    unsigned N = (unsigned)c.range(40000, cs.size >= 60 ? 140000 : 72000);
+    for (unsigned i = 0; i < N; i++) {
+      Spec p = bulk_spec(t, i);
+      index_t idx = blk_add(blk, t, p);
+      VF_CHECK(idx == tm[t].idx.size(), "sig=c11.bulk_index value number " << i << " of a bulk fill of table " << TN[t] << " got index " << idx << ", expected " << tm[t].idx.size());
+      tm[t].idx[p] = idx; tm[t].at[idx] = p;
+    }
+    bulk = true;
+    tr << "bulk fill of " << TN[t] << " with " << N << " values\n";
+  }
   for (unsigned step = 0; step < nops; step++) {
     uint64_t op = c.range(0, 21);
     if (op == 20) {           // the application keeps a snapshot of the block ...
@@ -300,6 +324,7 @@ static void c11_tables(Case& cs) {
   if (total >= 64) cs.st.cls("tables>=64_entries");
   if (clears) cs.st.cls("with_clear");
   if (rollbacks) cs.st.cls("with_assignment_from_snapshot");
+  if (bulk) cs.st.cls(clears ? "table_of_40000+_entries_then_cleared" : "table_of_40000+_entries");
   cs.sample = std::to_string(nops) + " ops, " + std::to_string(hits) + " dedup hits, " + std::to_string(distinct) + " distinct values, " + std::to_string(clears) + " clears; tail: " + tr.str().substr(tr.str().size() > 300 ? tr.str().size() - 300 : 0);
 }
 
